@@ -121,14 +121,24 @@ theorem step_getPartial (s : FsState) (hi : FsInv s) (k : Key) (rs : List ByteRa
   · simp only [Spec.step, getPartial, h1, h2]
     unfold extractByteRanges
     by_cases hv : (rs.all (·.valid b.length)) = true
-    · rw [if_pos hv, extract_all_valid b rs hv]
+    · rw [if_pos hv, if_pos hv, extract_all_valid b rs hv]
       simp [acceptable]
-    · rw [if_neg hv]
-      cases hr : readRanges b rs with
-      | none => simp [acceptable]
-      | some xs =>
-        rw [readRanges_trunc b rs xs hr]
-        simp [acceptable, h2]
+    · rw [if_neg hv, if_neg hv]
+      simp [acceptable]
+
+/-- since the repair of the ranged read the outcome is exactly the ordered map's (no truncated alternative) -/
+theorem getPartial_exact (s : FsState) (hi : FsInv s) (k : Key) (rs : List ByteRange) (hok : keyOk s k = true) :
+    (fsStep s (.getPartial k rs)).2 = .res (Spec.step (absFs s) (.getPartial k rs)).2 := by
+  obtain ⟨path, hk, hfree⟩ := keyOk_spec hok
+  have e2 : (fsStep s (.getPartial k rs)).2 = getPartial s path rs := by simp only [fsStep, hk]
+  rw [e2]
+  rcases stat_abs s hi k path hk hfree with ⟨h1, h2⟩ | ⟨b, h1, h2⟩
+  · simp [Spec.step, getPartial, h1, h2]
+  · simp only [Spec.step, getPartial, h1, h2]
+    unfold extractByteRanges
+    by_cases hv : (rs.all (·.valid b.length)) = true
+    · rw [if_pos hv, if_pos hv, extract_all_valid b rs hv]
+    · rw [if_neg hv, if_neg hv]
 
 theorem step_list (s : FsState) (hi : FsInv s) : StepOk s .list := by
   unfold StepOk
